@@ -147,6 +147,18 @@ CHECKS = {
         design_ref='DESIGN.md §5 C18',
         note='one recorded finding (comment inside the CTE list) is a dedicated clause',
         technique='TLA+ grammar annotations + TLC validation of get_type() results'),
+    'C20': dict(
+        category='model_checking',
+        text=("LexerInit.tla models get_default_instance/default_initialization step by step for 2 and 3 threads; TLC checks "
+              "UseSeesComplete, AtMostOneCreate and mutual exclusion exhaustively and must find the race in the lock-free skeleton. "
+              "Real threads are driven one line at a time by a deterministic scheduler (sys.settrace gate + instrumented Lexer._lock, no "
+              "source hooks): every single pre-emption at each abstract state change in both orders, sampled double pre-emptions and "
+              "3-thread runs; each run's projected singleton states are validated by TLC (TraceLexerInit.tla). ApiHistory.tla enumerates "
+              "all operation histories up to the bound (raising calls, abandoned generators, RecursionError, lexer reconfiguration, "
+              "clear, default_initialization); each is replayed and a reference battery compared with the pristine digest."),
+        design_ref='DESIGN.md §5 C20',
+        note='pre-emption granularity = Python line events in lexer.py; concurrent parse/format on an initialised lexer is covered by the battery only sequentially',
+        technique='TLA+ thread-interleaving model (TLC exhaustive) + controlled real-thread schedules validated by TLC + TLC-enumerated API histories replayed'),
 }
 
 PENDING = {}
